@@ -11,6 +11,10 @@ import re
 from . import lib, memlib
 
 
+CHUNK = 2000   # cases per harness process: pending virtual-clock timers (long TTLs) and the
+               # per-case Managers they keep alive make one huge process slow down
+
+
 def run_prog_memx(mode):
     def run_prog(d, progtext, tag="p", timeout=600):
         prog = d / (tag + ".prog")
@@ -20,14 +24,27 @@ def run_prog_memx(mode):
         for f in (out, ver):
             if f.exists():
                 f.unlink()
-        rc, log = lib.sh("%s memx %s %s %s %s" % (lib.BUILD / memlib.FT, prog, out, d, mode), cwd=d,
-                         timeout=timeout, extra_env={"GOMAXPROCS": "1"})
-        if rc != 0 or not out.exists():
-            prog_case = ""
-            pf = d / (tag + ".trace.progress")
-            if pf.exists():
-                prog_case = pf.read_text().strip()
-            return None, out.read_text() if out.exists() else "", "harness rc=%s case=%s log=%s" % (rc, prog_case, log[-1500:])
+        cases = memlib.split_cases(progtext)
+        traces = []
+        for ci in range(0, max(len(cases), 1), CHUNK):
+            chunk = cases[ci:ci + CHUNK]
+            cprog = d / (tag + ".chunk.prog")
+            cout = d / (tag + ".chunk.trace")
+            cprog.write_text("".join("\n".join(c) + "\n" for c in chunk))
+            if cout.exists():
+                cout.unlink()
+            rc, log = lib.sh("%s memx %s %s %s %s" % (lib.BUILD / memlib.FT, cprog, cout, d, mode), cwd=d,
+                             timeout=timeout, extra_env={"GOMAXPROCS": "1"})
+            part = cout.read_text() if cout.exists() else ""
+            traces.append(part)
+            if rc != 0 or not cout.exists():
+                prog_case = ""
+                pf = d / (tag + ".chunk.trace.progress")
+                if pf.exists():
+                    prog_case = pf.read_text().split("\n")[0].strip()
+                out.write_text("".join(traces))
+                return None, "".join(traces), "harness rc=%s case=%s log=%s" % (rc, prog_case, log[-1500:])
+        out.write_text("".join(traces))
         rc, log = lib.sh("%s mem %s %s" % (lib.BUILD / "modelrun", out, ver), cwd=d, timeout=timeout)
         if rc != 0 or not ver.exists():
             return None, out.read_text(), "modelrun rc=%s log=%s" % (rc, log[-1500:])
